@@ -29,6 +29,7 @@ fn gens(tier: Tier) -> Vec<Gen> {
     vec![
         Gen { name: "matrix", count: matrix_count(), exhaustive: true, run: run_matrix },
         Gen { name: "everycut", count: everycut_count(), exhaustive: true, run: run_everycut },
+        Gen { name: "reader-plans", count: 216 * READER_PLAN_BODIES as u64, exhaustive: true, run: run_reader_plans },
         Gen { name: "random", count: tier.pick(3_000, 150_000), exhaustive: false, run: run_random },
     ]
 }
@@ -119,6 +120,8 @@ enum Api {
     TextWith,
     TextUtf8,
     TextReader(usize),
+    /// text_reader() read with caller buffers whose sizes cycle through the three given
+    TextReaderPlan([usize; 3]),
 }
 
 fn apis() -> Vec<Api> {
@@ -244,12 +247,20 @@ fn run_api_split(resp: attohttpc::Response, api: &Api, with: Charset) -> Result<
         Api::Text => reader.text().map_err(|e| format!("{e:?}")),
         Api::TextWith => reader.text_with(with).map_err(|e| format!("{e:?}")),
         Api::TextUtf8 => reader.text_utf8().map_err(|e| format!("{e:?}")),
-        Api::TextReader(n) => {
+        Api::TextReader(_) | Api::TextReaderPlan(_) => {
             let mut r = reader.text_reader();
-            let mut buf = vec![0u8; *n];
+            let sizes = match api {
+                Api::TextReaderPlan(p) => p.to_vec(),
+                Api::TextReader(n) => vec![*n],
+                _ => unreachable!(),
+            };
+            let mut buf = vec![0u8; *sizes.iter().max().unwrap()];
             let mut out = Vec::new();
+            let mut turn = 0usize;
             loop {
-                match r.read(&mut buf) {
+                let sz = sizes[turn % sizes.len()];
+                turn += 1;
+                match r.read(&mut buf[..sz]) {
                     Ok(0) => break,
                     Ok(k) => out.extend_from_slice(&buf[..k]),
                     Err(e) => return Err(format!("{:?}: {e}", e.kind())),
@@ -272,12 +283,20 @@ fn run_api(resp: attohttpc::Response, api: &Api, with: Charset) -> Result<String
         Api::Text => resp.text().map_err(|e| format!("{e:?}")),
         Api::TextWith => resp.text_with(with).map_err(|e| format!("{e:?}")),
         Api::TextUtf8 => resp.text_utf8().map_err(|e| format!("{e:?}")),
-        Api::TextReader(n) => {
+        Api::TextReader(_) | Api::TextReaderPlan(_) => {
             let mut r = resp.text_reader();
-            let mut buf = vec![0u8; *n];
+            let sizes = match api {
+                Api::TextReaderPlan(p) => p.to_vec(),
+                Api::TextReader(n) => vec![*n],
+                _ => unreachable!(),
+            };
+            let mut buf = vec![0u8; *sizes.iter().max().unwrap()];
             let mut out = Vec::new();
+            let mut turn = 0usize;
             loop {
-                match r.read(&mut buf) {
+                let sz = sizes[turn % sizes.len()];
+                turn += 1;
+                match r.read(&mut buf[..sz]) {
                     Ok(0) => break,
                     Ok(k) => out.extend_from_slice(&buf[..k]),
                     Err(e) => return Err(format!("{:?}: {e}", e.kind())),
@@ -332,7 +351,7 @@ fn run_case(ctx: &mut Ctx, c: &Case) {
         }
     };
     let effective: Charset = match c.api {
-        Api::Text | Api::TextReader(_) => c.selected,
+        Api::Text | Api::TextReader(_) | Api::TextReaderPlan(_) => c.selected,
         Api::TextWith => with,
         Api::TextUtf8 => encoding_rs::UTF_8,
     };
@@ -340,7 +359,7 @@ fn run_case(ctx: &mut Ctx, c: &Case) {
         let want = effective.decode_without_bom_handling(&c.body).0.into_owned();
         if got != want {
             let sig = match c.api {
-                Api::Text | Api::TextReader(_) => format!("wrong-decoding:{}:{}", api_name(&c.api), c.choice),
+                Api::Text | Api::TextReader(_) | Api::TextReaderPlan(_) => format!("wrong-decoding:{}:{}", api_name(&c.api), c.choice),
                 _ => format!("wrong-decoding:{}", api_name(&c.api)),
             };
             // which charset does the output correspond to?
@@ -354,7 +373,7 @@ fn run_case(ctx: &mut Ctx, c: &Case) {
             let _w = World::single(Segmentation::Whole.apply(&b.wire));
             fetch(c).map_err(|e| format!("{e:?}")).and_then(|r| run_api(r, &Api::Text, with))
         };
-        if matches!(c.api, Api::Text | Api::TextReader(_)) {
+        if matches!(c.api, Api::Text | Api::TextReader(_) | Api::TextReaderPlan(_)) {
             match whole {
                 Ok(w) if w == got => {}
                 other => ctx.violation("segmentation-dependent-decoding", descr(&format!("BOM-prefixed body: result under segmentation differs from the unsegmented text(): {:?} vs {:?}", got.chars().take(30).collect::<String>(), other.map(|s| s.chars().take(30).collect::<String>())))),
@@ -378,7 +397,7 @@ fn api_name(a: &Api) -> &'static str {
         Api::Text => "text",
         Api::TextWith => "text_with",
         Api::TextUtf8 => "text_utf8",
-        Api::TextReader(_) => "text_reader",
+        Api::TextReader(_) | Api::TextReaderPlan(_) => "text_reader",
     }
 }
 
@@ -500,6 +519,28 @@ fn run_everycut(ctx: &mut Ctx, _rng: &mut Rng, index: u64) {
     run_case(ctx, &c);
 }
 
+const READER_PLAN_BODIES: usize = 6;
+
+/// EVERY cycle of three caller buffer sizes in 1..=6 on text_reader(), over bodies whose last
+/// character is cut short (the replacement character is produced by the end-of-stream flush) and
+/// bodies of characters of every UTF-8 length: mixed sizes below and above the reader's 4-byte
+/// staging buffer in one read sequence
+fn run_reader_plans(ctx: &mut Ctx, _rng: &mut Rng, index: u64) {
+    let plan = index % 216;
+    let sizes = [(plan / 36) as usize + 1, (plan / 6 % 6) as usize + 1, (plan % 6) as usize + 1];
+    let (cs, body): (Charset, Vec<u8>) = match index / 216 {
+        0 => (encoding_rs::UTF_8, b"abc\xC3".to_vec()),
+        1 => (encoding_rs::UTF_8, "a\u{e9}\u{20ac}\u{1d11e}b\u{e9}\u{e9}".as_bytes().to_vec()),
+        2 => (encoding_rs::UTF_8, b"ab\xE2\x82".to_vec()),
+        3 => (encoding_rs::SHIFT_JIS, b"ab\x83".to_vec()),
+        4 => (encoding_rs::UTF_16LE, vec![0x61, 0x00, 0x3d, 0xd8, 0x61]),
+        _ => (encoding_rs::WINDOWS_1252, b"\x80\x80\x80\x80\x80".to_vec()),
+    };
+    ctx.count("text_reader_mixed_size_plans", 1);
+    let c = Case { ct_value: Some(format!("text/plain; charset={}", cs.name()).into_bytes()), selected: cs, choice: "header", defaults: Defaults::Unset, session_default: None, request_default: None, api: Api::TextReaderPlan(sizes), body, seg: Segmentation::Whole, framing: Framing::Length, label: "reader-plans".into() };
+    run_case(ctx, &c);
+}
+
 fn run_random(ctx: &mut Ctx, rng: &mut Rng, index: u64) {
     let labels = all_labels();
     let (cs, label) = labels[rng.usize_below(labels.len())].clone();
@@ -524,7 +565,10 @@ fn run_random(ctx: &mut Ctx, rng: &mut Rng, index: u64) {
         strip_bom(&mut body);
     }
     let seg = respgen::random_segmentation(rng, body.len() + 80, &[]);
-    let api = rng.pick(&apis()).clone();
+    let mut api = rng.pick(&apis()).clone();
+    if rng.chance(1, 8) {
+        api = Api::TextReaderPlan([rng.range(1, 7), rng.range(1, 7), rng.range(1, 9000)]);
+    }
     if rng.bool() {
         ctx.count("malformed_bodies", 1);
     }
